@@ -115,6 +115,7 @@ class CtxModel:
             chains = [[u], [u, target], [target, u]]
         else:
             target, chains = u, [[u]]
-        # "a forward reference naming it": naming the wrapper itself, or naming the class it stands for
-        names = [name_ref(k), name_ref(target) if isinstance(target, type) else None]
+        # "a forward reference naming it": the reference naming the looked-up key itself (the class it stands for is reached through
+        # the "unwrapped form", not through a reference to that class: with only ForwardRef(B) stored, NewType(B) is absent)
+        names = [name_ref(k)]
         return {self._first([("unwrapped", c) for c in chain] + [("fwdref", n)])[0] for chain in chains for n in names}
